@@ -33,6 +33,12 @@ CLAIMED["C19"] = dict(technique="role agreement between option parser and walker
 CLAIMED["C20"] = dict(technique="dominance + must-pass-through with success-edge filtering + goroutine/channel counting + creation census + sibling agreement",
   text="Decides six structural necessary conditions of the preview contract: cancel before every enqueue; Start→Wait and one join per helper goroutine inside one previewer iteration, single previewer; quit+kill at session end; group-leader children; unbuffered kill channel; version bump inspects the template that is run. Does not decide that the last run is for the focused line.",
   note="Shares obligations with C14-R2/R4; go/ssa trusted.")
+CLAIMED["C09"] = dict(technique="writer census with path conditions + exhaustiveness of the action switch over the constant set + dominance + alias analysis of the kill buffer",
+  text="Decides four structural necessary conditions of query/cursor/selection evolution: selection insertions only through the limit- and duplicate-checked selectItem, deletions only through deselectItem, wholesale replacements empty or filtered copies; every actionType constant has a case; printList clamps before reading results; the kill buffer never keeps sharing the query buffer's array. Does not decide the readline semantics of each action.",
+  note="go/ssa trusted; 138 action types floored.")
+CLAIMED["C12"] = dict(technique="constant replacer tables evaluated in a model of POSIX/fish single-quote lexing (exhaustive short strings) + taint analysis with sanitisers and flag-guarded phi edges + provenance of re-launch arguments/environment",
+  text="Decides three structural necessary conditions of shell-safe expansion: the quoting lemma for QuoteEntry/escapeSingleQuote from the tables in the code and table selection by the executing shell; item/query/prompt text reaches the expanded template only via QuoteEntry (or ordinal/temp path) except under the r/f flags; tmux/proxy re-launch quotes every argument and environment value. Does not decide the placeholder grammar.",
+  note="The shell model (POSIX: literal until next quote, backslash-quote outside; fish: two escapes inside quotes) is the trusted base of R1.")
 NA = {
 }
 ALL = ["C%02d" % i for i in range(1, 21)]
